@@ -1037,6 +1037,9 @@ def run(ctx):
     rule_d(ctx)
     rule_e(ctx)
     rule_f(ctx)
+    from .common import rule_extent_keywords
+
+    rule_extent_keywords(ctx, "C01.g")
     # the orientation of the axes is written down twice in the repository (interpret_indexing, and the flips / transposes of the
     # array-layout helpers); C01.a shows the table is self-consistent, the shared rule that the two statements of the convention agree
     from . import c20
